@@ -18,8 +18,8 @@ import re as _re
 
 def plan(t):
     q = t == 'quick'
-    return dict(tail_cap=5 if q else 8, raw_cap=4 if q else 6, hv_cap=3 if q else 4, target_caps=(2, 3) if q else (2, 3, 4), line_caps=(3, 2, 8) if q else (4, 3, 8),
-                methods=['GET', 'POST'] if q else ['GET', 'HEAD', 'POST', 'PUT', 'OPTIONS'], body_cap=3 if q else 4)
+    return dict(tail_cap=5 if q else 6, raw_cap=4 if q else 5, hv_cap=3 if q else 4, target_caps=(2, 3), line_caps=(3, 2, 8) if q else (4, 3, 8),
+                methods=['GET', 'POST'] if q else ['GET', 'HEAD', 'POST', 'OPTIONS'], body_cap=3 if q else 4)
 
 
 def panic_key(o, where_prefix):
